@@ -19,6 +19,11 @@ func VerifC16CleanRestart() {
 	cfg := kitConfig()
 	cfg.RtmpConfig.GopNum = vrt.Param("gop")
 	cfg.HttpflvConfig.GopNum = vrt.Param("gop")
+	if vrt.Param("ts") == 1 {
+		// HTTP-TS on: the RTMP->MPEG-TS remuxer runs and feeds the TS GOP cache
+		cfg.HttptsConfig.Enable = true
+		cfg.HttptsConfig.GopNum = vrt.Param("gop")
+	}
 	httpHooks := []*c16Hook{}
 	opt := GroupOption{onHookSession: func(uniqueKey string, streamName string) ICustomizeHookSessionContext {
 		h := &c16Hook{}
@@ -46,6 +51,14 @@ func VerifC16CleanRestart() {
 	for _, m := range pub1 {
 		g.OnReadRtmpAvMsg(m)
 	}
+	// optionally an audio-only run long enough for the TS remuxer to start without video (it waits for 16
+	// messages) and to hold unflushed audio when the input leaves; bytes concrete, 23 ms apart
+	if ao := vrt.Param("aonly"); ao > 0 {
+		g.OnReadRtmpAvMsg(kitMsg(base.RtmpTypeIdAudio, 0, []byte{0xaf, 0x00, 0x12, 0x10}))
+		for i := 0; i < ao; i++ {
+			g.OnReadRtmpAvMsg(kitMsg(base.RtmpTypeIdAudio, uint32(23*i), []byte{0xaf, 0x01, 0x21, byte(i), 0x04, 0x60, 0x8c, 0x1c}))
+		}
+	}
 	switch vrt.Param("end") {
 	case 0:
 		g.DelRtmpPubSession(p1)
@@ -59,6 +72,7 @@ func VerifC16CleanRestart() {
 	vrt.Assert(len(httpHooks) == 1 && httpHooks[0].stops == 1, "stream hook told to stop exactly once")
 	vrt.Assert(g.rtmpGopCache.GetGopCount() == 0 && g.rtmpGopCache.VideoSeqHeader == nil && g.rtmpGopCache.AacSeqHeader == nil && g.rtmpGopCache.MetadataEnsureWithoutSetDataFrame == nil, "no cached headers or GOPs remain (rtmp)")
 	vrt.Assert(g.httpflvGopCache.GetGopCount() == 0 && g.httpflvGopCache.VideoSeqHeader == nil && g.httpflvGopCache.AacSeqHeader == nil, "no cached headers or GOPs remain (flv)")
+	vrt.Assert(g.httptsGopCache.GetGopCount() == 0, "no cached GOPs remain (ts)")
 	vrt.Assert(g.rtmp2MpegtsRemuxer == nil && g.rtmp2RtspRemuxer == nil && g.sdpCtx == nil && g.patpmt == nil, "remuxers and their headers released")
 
 	// second incarnation
